@@ -319,6 +319,23 @@ def _(V, A):
     return _kernel_outs(*_kernel(V, A, False))
 
 
+# ----- util.py ----------------------------------------------------------------
+
+@traced('Util', 'to_180_range', [('angle', (-2000.0, 2000.0))])
+def _(V, A):
+    return {'r': util.to_180_range(V('angle'))}
+
+
+@traced('Util', 'to_180_range_arr', [('angle', (-2000.0, 2000.0))])
+def _(V, A):
+    return {'r': util.to_180_range(A([V('angle')]))[0]}
+
+
+@traced('Util', 'skew_matrix', [('v0', VEL), ('v1', VEL), ('v2', VEL)])
+def _(V, A):
+    return out_mat('s', util.skew_matrix(A([V('v0'), V('v1'), V('v2')])))
+
+
 # ---------------------------------------------------------------------------
 # tracing / validation / emission
 
